@@ -16,5 +16,6 @@ INVARIANTS
   InvUnmountOrder
   InvUnmountOrderTrue
   InvMountOrder
+  InvUnmountStrandsNothing
   InvNoFailure
   InvProfileIsLog
